@@ -40,10 +40,10 @@ Definition edge_key_prefix (g e : bytes) := join [tag_e; g; e; []].
 Definition src_edge_prefix (g v : bytes) := join [tag_s; g; v; []].
 Definition dst_edge_prefix (g v : bytes) := join [tag_d; g; v; []].
 
-(* validation (gripql/util.go, after the NUL fix) *)
+(* validation (gripql/util.go, after the NUL fix and the control-character / backtick fix) *)
 Definition forbidden : bytes :=   (* the punctuation list of gripql/util.go:validate, as byte values *)
-  [33;64;35;36;37;94;38;42;40;41;43;61;123;125;91;93;32;58;59;34;39;44;46;60;62;63;47;92;124;126]%N.
+  [33;64;35;36;37;94;38;42;40;41;43;61;123;125;91;93;32;58;59;34;39;44;46;60;62;63;47;92;124;126;96]%N.
 Definition valid_name_b (k : bytes) : bool :=
-  nonul k && forallb (fun x => negb (existsb (N.eqb x) forbidden)) k &&
+  nonul k && forallb (fun x => negb (existsb (N.eqb x) forbidden) && negb (N.ltb x 32) && negb (N.eqb x 127)) k &&
   match k with x :: _ => negb (N.eqb x 95) && negb (N.eqb x 45) | [] => true end.
 Definition valid_id_b (k : bytes) : bool := negb (match k with [] => true | _ => false end) && nonul k.
